@@ -34,12 +34,14 @@ func AssignToBytes(dst, src any, buf AccumulativeBuffer) (ok bool) {
 			ok = true
 		default:
 			var (
-				p   = *dst.(*[]byte)
+				p   []byte
 				err error
 			)
 			// Worst case, try to convert source to bytes.
 			if buf == nil {
-				p, err = x2bytes.ToBytes(p[:0], src)
+				// Don't reuse destination's storage: it may be shared with the source of previous assignment
+				// (bytes are assigned by reference) or be a read-only memory of the string.
+				p, err = x2bytes.ToBytes(p, src)
 				if ok = err == nil; ok {
 					*dst.(*[]byte) = p
 				}
